@@ -215,5 +215,39 @@ func runC19Seq(input string) string {
 		}
 		out = append(out, r+dd.show()+";"+bufs)
 	}
+	// after the history: what a conversion handed to a []byte destination is the caller's own.  Every scalar source of the
+	// history once more into a fresh destination, the result overwritten in place, and the same conversion again: it must
+	// come out as the first time (a conversion that hands out shared, preallocated bytes returns what the caller wrote)
+	for _, st := range steps {
+		if st.form[0] == 'N' || st.form[0] == 'F' || st.kind == "bytes" || st.kind == "string" {
+			continue
+		}
+		d1, ok1 := convBytes(st.form[0], st.kind, st.val, buf)
+		if !ok1 {
+			continue
+		}
+		want := string(d1)
+		for i := range d1 {
+			d1[i] = '#'
+		}
+		d2, ok2 := convBytes(st.form[0], st.kind, st.val, buf)
+		if ok2 && string(d2) != want {
+			out[len(out)-1] += ";RESULT-SHARED:" + st.kind + ":" + want + "->" + string(d2)
+			break
+		}
+	}
 	return strings.Join(out, "/")
+}
+
+// convBytes: one conversion of a freshly built source into a fresh []byte destination
+func convBytes(form byte, kind, val string, buf *inspector.ByteBuffer) ([]byte, bool) {
+	src, _ := c19Source(form, kind, val)
+	var d []byte
+	var ok bool
+	if buf == nil {
+		ok = inspector.Assign(&d, src)
+	} else {
+		ok = inspector.AssignBuf(&d, src, buf)
+	}
+	return d, ok && len(d) > 0
 }
